@@ -18,25 +18,26 @@ inductive R (α : Type) where
 def int32Max : Nat := 2147483647
 
 /-- `taggedGetBounded(ptr, end, &v)` of varintDict.c = `varintTaggedGet(ptr, min(end - ptr, INT32_MAX), &v)`;
-    `bs` = the bytes from `ptr` up to `end` -/
-def tgetB (bs : List Nat) : GetR := Tagged.getN bs ((min bs.length int32Max : Nat) : Int)
+    `bs` = the bytes from `ptr` up to `end`, `rem` = `end - ptr` (carried along so that the executable model
+    does not recount the list; the theorems assume `rem = bs.length`, which `dictDec` establishes) -/
+def tgetB (bs : List Nat) (rem : Nat) : GetR := Tagged.getN bs ((min rem int32Max : Nat) : Int)
 
 /-- the dictionary-entry loop: `dictSize` bounded tagged reads, each followed by `w == 0 || ptr + w > end` -/
-def readEntries : Nat → List Nat → R (List Nat × List Nat)
-  | 0, bs => .ok ([], bs)
-  | k + 1, bs =>
-    match tgetB bs with
+def readEntries : Nat → List Nat → Nat → R (List Nat × List Nat × Nat)
+  | 0, bs, rem => .ok ([], bs, rem)
+  | k + 1, bs, rem =>
+    match tgetB bs rem with
     | .fault => .fault
     | .short => .err
     | .ok v w =>
-      if w > bs.length then .err else
-      match readEntries k (bs.drop w) with
+      if w > rem then .err else
+      match readEntries k (bs.drop w) (rem - w) with
       | .fault => .fault
       | .err => .err
-      | .ok (vs, r) => .ok (v :: vs, r)
+      | .ok (vs, r, rr) => .ok (v :: vs, r, rr)
 
 /-- the index loop: `varintExternalGetQuick_(ptr, indexWidth, index)`, `index >= dictSize` → failure -/
-def decIdx (d : List Nat) (dsz w : Nat) : Nat → List Nat → R (List Nat)
+def decIdx (d : Array Nat) (dsz w : Nat) : Nat → List Nat → R (List Nat)
   | 0, _ => .ok []
   | k + 1, bs =>
     match takeExact w bs with
@@ -60,28 +61,31 @@ def allocsOf (cap : Option Nat) (dsz cnt : Nat) : List Nat :=
   | none => [8 * dsz, 8 * cnt]
   | some _ => [8 * dsz]
 
-/-- `varintDictDecode` (`cap = none`, allocates its output) and `varintDictDecodeInto`
-    (`cap = some maxValues`): result and the sizes passed to malloc, in order. -/
-def dictDec (bs : List Nat) (cap : Option Nat) : R (List Nat) × List Nat :=
-  if bs = [] ∨ cap = some 0 then (.err, []) else
-  match tgetB bs with
+/-- body of both decoders; `rem` = `bufferLen` -/
+def dictDecAux (bs : List Nat) (rem : Nat) (cap : Option Nat) : R (List Nat) × List Nat :=
+  if rem = 0 ∨ cap = some 0 then (.err, []) else
+  match tgetB bs rem with
   | .fault => (.fault, [])
   | .short => (.err, [])
   | .ok dsz w =>
-    if w > bs.length then (.err, []) else
+    if w > rem then (.err, []) else
     if dsz > Dict.maxDict then (.err, []) else
-    match readEntries dsz (bs.drop w) with
+    match readEntries dsz (bs.drop w) (rem - w) with
     | .fault => (.fault, [8 * dsz])
     | .err => (.err, [8 * dsz])
-    | .ok (d, r1) =>
-      match tgetB r1 with
+    | .ok (d, r1, rem1) =>
+      match tgetB r1 rem1 with
       | .fault => (.fault, [8 * dsz])
       | .short => (.err, [8 * dsz])
       | .ok cnt w2 =>
-        if w2 > r1.length then (.err, [8 * dsz]) else
+        if w2 > rem1 then (.err, [8 * dsz]) else
         if overCap cap cnt then (.err, [8 * dsz]) else
-        if cnt > (r1.drop w2).length / Dict.indexWidth dsz then (.err, [8 * dsz]) else
-        (decIdx d dsz (Dict.indexWidth dsz) cnt (r1.drop w2), allocsOf cap dsz cnt)
+        if cnt > (rem1 - w2) / Dict.indexWidth dsz then (.err, [8 * dsz]) else
+        (decIdx d.toArray dsz (Dict.indexWidth dsz) cnt (r1.drop w2), allocsOf cap dsz cnt)
+
+/-- `varintDictDecode` (`cap = none`, allocates its output) and `varintDictDecodeInto`
+    (`cap = some maxValues`): result and the sizes passed to malloc, in order. -/
+def dictDec (bs : List Nat) (cap : Option Nat) : R (List Nat) × List Nat := dictDecAux bs bs.length cap
 
 /-- the 32-bit little-endian field at the head of `bs` -/
 def le32 (bs : List Nat) : R Nat :=
@@ -132,25 +136,26 @@ def bitmapDec (bs : List Nat) : R BM × List Nat :=
           | some p => (.ok ⟨2, card, nr, p⟩, [24, 4 * nr])
       else (.err, [24])
 
-/-- `varintRLEGetRunCount(src, encodedSize)`: fuel = number of bytes (every counted run consumes ≥ 2) -/
-def runCountAux : Nat → List Nat → R Nat
-  | 0, _ => .ok 0
-  | fuel + 1, bs =>
-    if bs.length = 0 then .ok 0 else
-    match Tagged.getN bs ((min bs.length int32Max : Nat) : Int) with
+/-- `varintRLEGetRunCount(src, encodedSize)`: `rem` = `end - ptr`; fuel = number of bytes (every counted run
+    consumes ≥ 2) -/
+def runCountAux : Nat → List Nat → Nat → R Nat
+  | 0, _, _ => .ok 0
+  | fuel + 1, bs, rem =>
+    if rem = 0 then .ok 0 else
+    match Tagged.getN bs ((min rem int32Max : Nat) : Int) with
     | .fault => .fault
     | .short => .ok 0
     | .ok runLen w1 =>
-      match Tagged.getN (bs.drop w1) (((min bs.length int32Max : Nat) : Int) - (w1 : Int)) with
+      match Tagged.getN (bs.drop w1) (((min rem int32Max : Nat) : Int) - (w1 : Int)) with
       | .fault => .fault
       | .short => .ok 0
       | .ok _ w2 =>
         if runLen = 0 then .ok 0 else
-        match runCountAux fuel (bs.drop (w1 + w2)) with
+        match runCountAux fuel (bs.drop (w1 + w2)) (rem - (w1 + w2)) with
         | .fault => .fault
         | .err => .err
         | .ok r => .ok (r + 1)
 
-def runCount (bs : List Nat) : R Nat := runCountAux (bs.length + 1) bs
+def runCount (bs : List Nat) : R Nat := runCountAux (bs.length + 1) bs bs.length
 
 end Varint.Bounded
